@@ -217,8 +217,9 @@ class AABB:
             pad = Vec(pad)
             if pad.size != self.dim: raise AABB.IncompatibleDimensionError(f"Padding vector has a different dimension ({pad.size}) than bounding box ({self.dim})") 
         pad = np.maximum(pad, 0)
-        self._p1 -= pad
-        self._p2 += pad
+        # not in place: the constructor wraps the caller's arrays without copying them
+        self._p1 = Vec(self._p1 - pad)
+        self._p2 = Vec(self._p2 + pad)
 
     def contains_point(self, pt: Vec) -> bool:
         """Point - bounding box intersection predicate.
